@@ -157,12 +157,18 @@ def _val(t, i):
             items.append(v)
             if t[i] == ",":
                 i += 1
-        return frozenset(items), i + 1
+        try:
+            return frozenset(items), i + 1
+        except TypeError:       # a set of records / functions: python dicts are not hashable, hand the elements out as a list
+            return items, i + 1
     if x == "[":
         i += 1
         d = {}
         while t[i] != "]":
             k = t[i]
+            while t[i + 1] != "|->" and re.fullmatch(r"\w+", t[i + 1]):     # TLC prints string keys such as "1P" as record fields: 1P |-> ..
+                k += t[i + 1]
+                i += 1
             assert t[i + 1] == "|->", t[i:i + 3]
             v, i = _val(t, i + 2)
             d[k] = v
